@@ -693,6 +693,17 @@ def near_descs(rng, classes=("sym", "herm", "gen"), types=("d",), meas=2):
                           args0="%d:20:-10:%d" % (rule, rule), meas=meas, ref=0, lgs=0, dlt=dlt)
                 kw.update(f)
                 out.append(desc(**kw))
+        # start vector = an eigenvector of a DENSE matrix to working accuracy (a column of the orthogonal factor the matrix was built from,
+        # rounded to the scalar type): the residual of the step-1 factorization is pure rounding noise, neither exactly zero nor far above it
+        if not gen:
+            for j in range(4):
+                i += 1
+                n = 14 + 3 * j
+                kw = dict(cls=cls, ty=types[i % len(types)], n=n, nev=3, ncv=min(n, 9 + j), seed=rng.randint(1, 10 ** 6), hist="N,V1,C0", sv1="eig",
+                          args0="%d:30:-10:%d" % ((3, 0, 7, 3)[j], (3, 3, 7, 0)[j]), meas=meas, ref=0, lgs=0, fam="presc", spec=("lin", "unif", "lin", "geo")[j])
+                if kw["spec"] == "geo":
+                    kw["span"] = 10
+                out.append(desc(**kw))
     return out
 
 
